@@ -3,6 +3,7 @@ import math
 import numpy as np
 from math import radians, degrees, pi, sin, cos
 from vlib import drive, f2h, h2f, quiet
+from harness.variants import clone
 
 SPEC = {
     "gen": ["Crystal"],
@@ -180,6 +181,7 @@ def oracle(ctx, widen=1):
     n = ctx.scale(40, 4000) * widen
     kinds = set()
     cases = 0
+    older = None
     for it in range(n):
         for system in SYSTEMS:
             minimal, full = rand_cell(ctx.rng, system)
@@ -191,11 +193,23 @@ def oracle(ctx, widen=1):
                 bad = None
                 try:
                     cr = crystal_of(form)
+                    # the cell is a value: a copy, a deep copy or an unpickled crystal is the same crystal
+                    cr, how = clone(ctx.rng, cr)
+                    if how != "same":
+                        label = label + "+" + how; kinds.add((system, label))
                 except Exception as e:  # noqa
                     ctx.violation(f"set_lattice('x', {', '.join(map(repr, form))}) [{system}, {label}] raised {type(e).__name__}: {e}",
                                   {"form": list(form)}, {"kind": "call-form", "system": system, "form": label})
                     continue
                 B = np.asarray(cr.B, float)
+                # two crystals alive at once: making this one must not have touched the previous one
+                if older is not None and not np.array_equal(np.asarray(older[0].B, float), older[1]):
+                    ctx.violation(f"creating a {system} crystal via {label} changed the B matrix of a {older[2]} crystal created before it: "
+                                  f"{np.asarray(older[0].B, float).round(5).tolist()} instead of {older[1].round(5).tolist()}",
+                                  {"form": list(form), "older": older[2]}, {"kind": "shared-state", "system": system})
+                    older = None
+                else:
+                    older = (cr, B.copy(), system)
                 sc = np.abs(B).max()
                 if abs(B[1, 0]) + abs(B[2, 0]) + abs(B[2, 1]) > 1e-12 * sc or min(B[0, 0], B[1, 1], B[2, 2]) <= 0:
                     bad = f"B is not upper triangular with positive diagonal: {B.tolist()}"
@@ -253,6 +267,8 @@ def oracle(ctx, widen=1):
                     if step == 0 and it % 3 == 0:
                         ub.set_ub((np.eye(3) * 1.3 + 0.2).tolist())     # a UB imported for some other cell, before any lattice exists
                     ub.set_lattice("x", *form)
+                    if ctx.rng.random() < 0.25:
+                        ub, _how = clone(ctx.rng, ub, ways=("deepcopy", "pickle"))      # carry on with a copy of the whole calculation
                     if step % 2 == 1:
                         ub.set_u(np.eye(3))
                     elif step % 3 == 2:
